@@ -24,20 +24,31 @@ theorem parseGroupF_mono : ∀ (n : Nat) (st : St) (r : GRes), parseGroupF n st 
     | ok x =>
       obtain ⟨⟨k, v⟩, st1⟩ := x
       rw [hreq] at h
-      have lit : ∀ (f : List Tok → St → GRes) (hf : ∀ a b, f a b ≠ .error .outOfFuel),
-          (match parseGroupF n st1 with
+      have lit : ∀ (k' : TokKind),
+          (match mkLiteralE k' v st1.line with
             | .error e => (.error e : GRes)
-            | .ok (ts, st2) => f ts st2) = r →
-          (match parseGroupF (n + 1) st1 with
+            | .ok t =>
+              match parseGroupF n st1 with
+              | .error e => (.error e : GRes)
+              | .ok (ts, st2) => .ok (t :: ts, st2)) = r →
+          (match mkLiteralE k' v st1.line with
             | .error e => (.error e : GRes)
-            | .ok (ts, st2) => f ts st2) = r := by
-        intro f hf hm
-        cases hg : parseGroupF n st1 with
-        | error e =>
-          rw [hg] at hm
-          have hne : (.error e : GRes) ≠ .error .outOfFuel := by intro he; apply hr; rw [← (show (.error e : GRes) = r from hm), he]
-          rw [ih st1 _ hg hne]; exact hm
-        | ok y => rw [ih st1 _ hg (by simp)]; rw [hg] at hm; exact hm
+            | .ok t =>
+              match parseGroupF (n + 1) st1 with
+              | .error e => (.error e : GRes)
+              | .ok (ts, st2) => .ok (t :: ts, st2)) = r := by
+        intro k' hm
+        cases hml : mkLiteralE k' v st1.line with
+        | error e => rw [hml] at hm; exact hm
+        | ok t =>
+          rw [hml] at hm
+          simp only [] at hm ⊢
+          cases hg : parseGroupF n st1 with
+          | error e =>
+            rw [hg] at hm
+            have hne : (.error e : GRes) ≠ .error .outOfFuel := by intro he; apply hr; rw [← (show (.error e : GRes) = r from hm), he]
+            rw [ih st1 _ hg hne]; exact hm
+          | ok y => rw [ih st1 _ hg (by simp)]; rw [hg] at hm; exact hm
       cases k with
       | lbrace =>
         simp only [] at h ⊢
@@ -58,9 +69,9 @@ theorem parseGroupF_mono : ∀ (n : Nat) (st : St) (r : GRes), parseGroupF n st 
             rw [ih st2 _ ht hne]; exact h
           | ok z => rw [ih st2 _ ht (by simp)]; rw [ht] at h; exact h
       | rbrace => exact h
-      | name => exact lit (fun ts st2 => .ok (mkLiteral .name v :: ts, st2)) (by simp) h
-      | string => exact lit (fun ts st2 => .ok (mkLiteral .string v :: ts, st2)) (by simp) h
-      | integer => exact lit (fun ts st2 => .ok (mkLiteral .integer v :: ts, st2)) (by simp) h
+      | name => exact lit .name h
+      | string => exact lit .string h
+      | integer => exact lit .integer h
 
 theorem parseGroupF_mono_le (n m : Nat) (st : St) (r : GRes) (h : parseGroupF n st = r)
     (hr : r ≠ .error .outOfFuel) (hm : n ≤ m) : parseGroupF m st = r := by
@@ -157,15 +168,15 @@ theorem prepend_cons (t : Tok) (ts : List Tok) (X : GRes) :
 
 /-- **group, with a continuation**: well-formed tokens are read one by one; whatever the loop
 does with what follows is what it does after them -/
-theorem group_prefix : ∀ ts, ∀ (prev : Option Lex) (more : List Lex) (W : List Str) (ln : Nat),
+theorem group_prefixT (T : Str) (hT : TailOK T) : ∀ ts, ∀ (prev : Option Lex) (more : List Lex) (W : List Str) (ln : Nat),
     wfToks ts = true → (∀ x ∈ more, LexOK x) → GoodW prev (lexemesList ts ++ more) W →
     ∃ ln' prev', GoodW prev' more (W.drop (lexemesList ts).length) ∧
-      ln' + nl (renderW more (W.drop (lexemesList ts).length))
-        = ln + nl (renderW (lexemesList ts ++ more) W) ∧
+      ln' + nl (renderWT T more (W.drop (lexemesList ts).length))
+        = ln + nl (renderWT T (lexemesList ts ++ more) W) ∧
       ∀ (n : Nat) (X : GRes),
-        parseGroupF n ⟨renderW more (W.drop (lexemesList ts).length), ln'⟩ = X →
+        parseGroupF n ⟨renderWT T more (W.drop (lexemesList ts).length), ln'⟩ = X →
         X ≠ .error .outOfFuel →
-        ∃ m, parseGroupF m ⟨renderW (lexemesList ts ++ more) W, ln⟩ = prepend ts X := by
+        ∃ m, parseGroupF m ⟨renderWT T (lexemesList ts ++ more) W, ln⟩ = prepend ts X := by
   apply toks_induction
   · intro prev more W ln _ _ hg
     refine ⟨ln, prev, by simpa [lexemesList] using hg, by simp [lexemesList], ?_⟩
@@ -173,24 +184,24 @@ theorem group_prefix : ∀ ts, ∀ (prev : Option Lex) (more : List Lex) (W : Li
     exact ⟨n, by simpa [lexemesList, prepend_nil] using h⟩
   · intro t ts hs ih prev more W ln hwf hmore hg
     simp only [wfToks, Bool.and_eq_true] at hwf
-    obtain ⟨hok, hmk, hkind⟩ := simpleLex_ok t hs hwf.1
+    obtain ⟨hok, hmk, hkind, hshort⟩ := simpleLex_ok t hs hwf.1
     simp only [lexemesList, lexemes_simple t hs, List.singleton_append, List.cons_append,
       List.nil_append, List.length_cons] at hg ⊢
     obtain ⟨hw, _, hg'⟩ := hg
-    have hfol := follows_of_good (simpleLex t) _ _ hg'
+    have hfol := follows_of_goodT T hT (simpleLex t) _ _ hg'
     have hreq := required_lex (simpleLex t) hok (W.headD []) _ hw ln hfol none false
     obtain ⟨ln', prev', hgood, hcons, hcont⟩ :=
       ih (some (simpleLex t)) more W.tail (ln + (W.headD []).count '\n') hwf.2 hmore hg'
     rw [tail_drop] at hgood hcons hcont
     refine ⟨ln', prev', hgood, ?_, ?_⟩
     · rw [hcons]
-      simp only [renderW, nl_append, lex_text_no_nl _ hok]
+      simp only [renderWT, nl_append, lex_text_no_nl _ hok]
       simp only [nl]; omega
     · intro n X h hX
       obtain ⟨m, hm⟩ := hcont n X h hX
       refine ⟨m + 1, ?_⟩
-      simp only [renderW]
-      rw [parseGroupF_step_lit m _ _ _ _ hreq hkind, hm, hmk]
+      simp only [renderWT]
+      rw [parseGroupF_step_lit m _ _ _ _ hreq hkind hshort, hm, hmk]
       exact prepend_cons t ts X
   · intro body ts ihb iht prev more W ln hwf hmore hg
     simp only [wfToks, wfTok, Bool.and_eq_true] at hwf
@@ -203,7 +214,7 @@ theorem group_prefix : ∀ ts, ∀ (prev : Option Lex) (more : List Lex) (W : Li
     rw [hlex] at hg ⊢
     obtain ⟨hw, _, hg'⟩ := hg
     have hreq := required_lex .lb trivial (W.headD [])
-      (renderW (lexemesList body ++ .rb :: (lexemesList ts ++ more)) W.tail) hw ln trivial none false
+      (renderWT T (lexemesList body ++ .rb :: (lexemesList ts ++ more)) W.tail) hw ln trivial none false
     have hmore' : ∀ x ∈ lexemesList ts ++ more, LexOK x := by
       intro x hx
       simp only [List.mem_append] at hx
@@ -211,7 +222,7 @@ theorem group_prefix : ∀ ts, ∀ (prev : Option Lex) (more : List Lex) (W : Li
       · exact lexemesList_ok ts hwf.2 x hx
       · exact hmore x hx
     -- the nested group is complete: `group_rt` with any sufficient fuel
-    have hbody := fun fuel hf => group_rt body (some .lb) (lexemesList ts ++ more) W.tail
+    have hbody := fun fuel hf => group_rtT T hT body (some .lb) (lexemesList ts ++ more) W.tail
       (ln + (W.headD []).count '\n') fuel hwf.1 hmore' hg' hf
     obtain ⟨W1, ln1, _, hgood1, hcons1, hdrop1⟩ := hbody ((lexemesList body).length + 1) (Nat.le_refl _)
     obtain ⟨ln2, prev2, hgood2, hcons2, hcont⟩ := iht (some .rb) more W1 ln1 hwf.2 hmore hgood1
@@ -220,7 +231,7 @@ theorem group_prefix : ∀ ts, ∀ (prev : Option Lex) (more : List Lex) (W : Li
     rw [hd] at hgood2 hcons2 hcont
     refine ⟨ln2, prev2, hgood2, ?_, ?_⟩
     · rw [hcons2, hcons1]
-      simp only [renderW, nl_append, Lex.text]
+      simp only [renderWT, nl_append, Lex.text]
       simp only [nl]; simp; omega
     · intro n X h hX
       obtain ⟨m, hm⟩ := hcont n X h hX
@@ -232,10 +243,21 @@ theorem group_prefix : ∀ ts, ∀ (prev : Option Lex) (more : List Lex) (W : Li
       subst hl
       have hm' := parseGroupF_mono_le m M _ _ hm (prepend_ne_fuel ts X hX) (by omega)
       refine ⟨M + 1, ?_⟩
-      simp only [renderW]
+      simp only [renderWT]
       rw [parseGroupF_step_lb M _ _ _ hreq, hp1']
       simp only [hm']
       exact prepend_cons (.fn body) ts X
+
+theorem group_prefix : ∀ ts, ∀ (prev : Option Lex) (more : List Lex) (W : List Str) (ln : Nat),
+    wfToks ts = true → (∀ x ∈ more, LexOK x) → GoodW prev (lexemesList ts ++ more) W →
+    ∃ ln' prev', GoodW prev' more (W.drop (lexemesList ts).length) ∧
+      ln' + nl (renderW more (W.drop (lexemesList ts).length))
+        = ln + nl (renderW (lexemesList ts ++ more) W) ∧
+      ∀ (n : Nat) (X : GRes),
+        parseGroupF n ⟨renderW more (W.drop (lexemesList ts).length), ln'⟩ = X →
+        X ≠ .error .outOfFuel →
+        ∃ m, parseGroupF m ⟨renderW (lexemesList ts ++ more) W, ln⟩ = prepend ts X := by
+  simpa only [renderWT_nil] using group_prefixT [] TailOK.nil
 
 /-- put the groups already read in front of a result -/
 def prependG (gs : List (List Tok)) : Except Err (List (List Tok) × St) → Except Err (List (List Tok) × St)
@@ -243,21 +265,21 @@ def prependG (gs : List (List Tok)) : Except Err (List (List Tok) × St) → Exc
   | .ok (gs2, st) => .ok (gs ++ gs2, st)
 
 /-- **argument groups, with a continuation** -/
-theorem groups_prefix : ∀ (gs : List (List Tok)) (j : Nat) (prev : Option Lex) (more : List Lex)
+theorem groups_prefixT (T : Str) (hT : TailOK T) : ∀ (gs : List (List Tok)) (j : Nat) (prev : Option Lex) (more : List Lex)
     (W : List Str) (ln : Nat), gs.all wfToks = true → (∀ x ∈ more, LexOK x) →
     GoodW prev (groupsLexemes gs ++ more) W →
-    ∃ ln', parseGroups (gs.length + j) ⟨renderW (groupsLexemes gs ++ more) W, ln⟩
-        = prependG gs (parseGroups j ⟨renderW more (W.drop (groupsLexemes gs).length), ln'⟩) ∧
+    ∃ ln', parseGroups (gs.length + j) ⟨renderWT T (groupsLexemes gs ++ more) W, ln⟩
+        = prependG gs (parseGroups j ⟨renderWT T more (W.drop (groupsLexemes gs).length), ln'⟩) ∧
       GoodW (if gs = [] then prev else some .rb) more (W.drop (groupsLexemes gs).length) ∧
-      ln' + nl (renderW more (W.drop (groupsLexemes gs).length))
-        = ln + nl (renderW (groupsLexemes gs ++ more) W) := by
+      ln' + nl (renderWT T more (W.drop (groupsLexemes gs).length))
+        = ln + nl (renderWT T (groupsLexemes gs ++ more) W) := by
   intro gs
   induction gs with
   | nil =>
     intro j prev more W ln _ _ hg
     refine ⟨ln, ?_, by simpa [groupsLexemes] using hg, by simp [groupsLexemes]⟩
     simp only [groupsLexemes, List.nil_append, List.length_nil, Nat.zero_add, List.drop_zero]
-    cases parseGroups j ⟨renderW more W, ln⟩ <;> rfl
+    cases parseGroups j ⟨renderWT T more W, ln⟩ <;> rfl
   | cons g gs ih =>
     intro j prev more W ln hwf hmore hg
     simp only [List.all_cons, Bool.and_eq_true] at hwf
@@ -273,7 +295,7 @@ theorem groups_prefix : ∀ (gs : List (List Tok)) (j : Nat) (prev : Option Lex)
       · exact groupsLexemes_ok gs hwf.2 x hx
       · exact hmore x hx
     have hreq := required_text [(TokKind.lbrace, lbracePat)] .lbrace ['{']
-      (renderW (lexemesList g ++ .rb :: (groupsLexemes gs ++ more)) W.tail) (W.headD [])
+      (renderWT T (lexemesList g ++ .rb :: (groupsLexemes gs ++ more)) W.tail) (W.headD [])
       (by simp) (by simp [headSat, isWs, wsCodes]) hw
       (by simp [firstMatch, lbracePat, litPat, matchLit]) none false ln
     have hallok : ∀ x ∈ lexemesList g ++ .rb :: (groupsLexemes gs ++ more), LexOK x := by
@@ -284,12 +306,12 @@ theorem groups_prefix : ∀ (gs : List (List Tok)) (j : Nat) (prev : Option Lex)
       · trivial
       · exact hmore' x (by simpa using hx)
     have hfuel : (lexemesList g).length + 1 ≤
-        (renderW (lexemesList g ++ .rb :: (groupsLexemes gs ++ more)) W.tail).length + 1 := by
-      have := renderW_length _ hallok W.tail
+        (renderWT T (lexemesList g ++ .rb :: (groupsLexemes gs ++ more)) W.tail).length + 1 := by
+      have := renderWT_length T _ hallok W.tail
       simp only [List.length_append, List.length_cons] at this
       omega
     obtain ⟨W1, ln1, hp1, hgood1, hcons1, hdrop1⟩ :=
-      group_rt g (some .lb) (groupsLexemes gs ++ more) W.tail (ln + (W.headD []).count '\n') _
+      group_rtT T hT g (some .lb) (groupsLexemes gs ++ more) W.tail (ln + (W.headD []).count '\n') _
         hwf.1 hmore' hg' hfuel
     obtain ⟨ln2, hp2, hgood2, hcons2⟩ := ih j (some .rb) more W1 ln1 hwf.2 hmore hgood1
     have hd : W1.drop (groupsLexemes gs).length = W.drop (groupsLexemes (g :: gs)).length := by
@@ -300,17 +322,27 @@ theorem groups_prefix : ∀ (gs : List (List Tok)) (j : Nat) (prev : Option Lex)
     refine ⟨ln2, ?_, ?_, ?_⟩
     · have hl : (g :: gs).length + j = (gs.length + j) + 1 := by simp; omega
       rw [hl]
-      simp only [parseGroups, renderW]
+      simp only [parseGroups, renderWT]
       simp only [Lex.text, List.singleton_append] at hreq ⊢
       rw [hreq]
       simp only [parseGroup, hp1, hp2]
-      cases parseGroups j ⟨renderW more (W.drop (groupsLexemes (g :: gs)).length), ln2⟩ <;> rfl
+      cases parseGroups j ⟨renderWT T more (W.drop (groupsLexemes (g :: gs)).length), ln2⟩ <;> rfl
     · simp only [reduceCtorEq, if_false]
       by_cases hgs : gs = []
       · simpa [hgs] using hgood2
       · simpa [hgs] using hgood2
     · rw [hcons2, hcons1]
-      simp only [renderW, nl_append, Lex.text]
+      simp only [renderWT, nl_append, Lex.text]
       simp only [nl]; simp; omega
+
+theorem groups_prefix : ∀ (gs : List (List Tok)) (j : Nat) (prev : Option Lex) (more : List Lex)
+    (W : List Str) (ln : Nat), gs.all wfToks = true → (∀ x ∈ more, LexOK x) →
+    GoodW prev (groupsLexemes gs ++ more) W →
+    ∃ ln', parseGroups (gs.length + j) ⟨renderW (groupsLexemes gs ++ more) W, ln⟩
+        = prependG gs (parseGroups j ⟨renderW more (W.drop (groupsLexemes gs).length), ln'⟩) ∧
+      GoodW (if gs = [] then prev else some .rb) more (W.drop (groupsLexemes gs).length) ∧
+      ln' + nl (renderW more (W.drop (groupsLexemes gs).length))
+        = ln + nl (renderW (groupsLexemes gs ++ more) W) := by
+  simpa only [renderWT_nil] using groups_prefixT [] TailOK.nil
 
 end Pybtex.Bst
